@@ -303,7 +303,13 @@ fn run_in(case: &C18Case, nu: &mut Nu) -> Result<CaseInfo, Fail> {
                 "g.spawn",
                 ctx,
                 Some(b"each {|x| $\"hi: ($x)\"}"),
-                Some(MetaVal::O(vec![("duplex".into(), MetaVal::Bool(true))])),
+                // (every other case the spawn carries more meta than the switch, as frames
+                // appended by handlers and operators do)
+                Some(MetaVal::O(if *noise % 2 == 1 {
+                    vec![("note".into(), MetaVal::S("spawned by hand".into())), ("duplex".into(), MetaVal::Bool(true)), ("frame_id".into(), MetaVal::S("03gy000000000000000000000".into()))]
+                } else {
+                    vec![("duplex".into(), MetaVal::Bool(true))]
+                })),
             )?;
             let (_, ok) = nu.wait(Duration::from_secs(10), |fr| sourced(fr, &sp.id).iter().any(|w| w.topic == "g.start"))?;
             if !ok {
